@@ -87,7 +87,7 @@ class CachingLoaderMixin(ABC, _CachingLoaderProtocol):
             self.cache[cache_key] = template
             return template
 
-        if globals:
+        if globals is not None:
             cached_template.globals = globals
         return cached_template
 
@@ -110,7 +110,7 @@ class CachingLoaderMixin(ABC, _CachingLoaderProtocol):
             self.cache[cache_key] = template
             return template
 
-        if globals:
+        if globals is not None:
             cached_template.globals = globals
         return cached_template
 
